@@ -13,7 +13,12 @@ if _src not in sys.path:
 _saved_err = os.dup(2)
 _devnull = os.open(os.devnull, os.O_WRONLY)
 os.dup2(_devnull, 2)
-sys.stderr = os.fdopen(_saved_err, 'w', buffering=1)
+sys.stderr = open(os.devnull, 'w')
+_log = os.fdopen(_saved_err, 'w', buffering=1)
+
+
+def log(msg):
+    _log.write(str(msg) + '\n')
 
 import logging
 logging.disable(logging.CRITICAL)
